@@ -295,7 +295,19 @@ func ruleEStructRecursion(p *Program, r *Reporter) {
 }
 
 func rulePRecurseConsume(p *Program, r *Reporter) {
+	// token consumers: the parser's loop-free methods that call into the lexer (advance, advance2 whatever they are called)
 	consumers := map[string]bool{"advance": true, "advance2": true}
+	consumerFn := map[*ssa.Function]bool{}
+	for _, f := range p.Funcs {
+		if f.Pkg == nil || f.Pkg.Pkg != p.Parser.Types || f.Parent() != nil || len(loopsOf(f)) > 0 {
+			continue
+		}
+		for _, c := range staticCallees(f) {
+			if c.Pkg != nil && strings.HasSuffix(c.Pkg.Pkg.Path(), "/lexer") {
+				consumerFn[f] = true
+			}
+		}
+	}
 	var comp []*ssa.Function
 	for _, c := range repoSCCs(p) {
 		for _, f := range c {
@@ -323,7 +335,7 @@ func rulePRecurseConsume(p *Program, r *Reporter) {
 					break
 				}
 				if c, ok := ins.(*ssa.Call); ok {
-					if cf := calleeOf(&c.Call); cf != nil && consumers[cf.Name()] {
+					if cf := calleeOf(&c.Call); cf != nil && (consumers[cf.Name()] || consumerFn[cf]) {
 						return true
 					}
 				}
